@@ -23,6 +23,17 @@ struct Rec {
     helper: &'static str,
 }
 
+/// what a creating function returns: a value unique to the call, or (one time in twelve) nothing at
+/// all - a zero-length signature / tag / ciphertext is a value like any other
+fn created(ctx: &mut Ctx, k: &mut u32) -> Vec<u8> {
+    if ctx.rng.chance(1, 12) {
+        *k += 1;
+        ctx.count("creator-returned-empty");
+        return vec![];
+    }
+    uid(ctx, k)
+}
+
 fn uid(ctx: &mut Ctx, k: &mut u32) -> Vec<u8> {
     *k += 1;
     let mut v = vec![0xC0, *k as u8];
@@ -264,7 +275,7 @@ fn sign1_history(ctx: &mut Ctx) {
     let nb = 1 + ctx.rng.below(3);
     for _ in 0..nb {
         let aad = small(ctx);
-        let ret = uid(ctx, &mut k);
+        let ret = created(ctx, &mut k);
         let variant = ctx.rng.below(if payload.is_none() { 6 } else { 4 });
         let mut seen: Option<Vec<u8>> = None;
         match variant {
@@ -446,8 +457,23 @@ fn sign_history(ctx: &mut Ctx) {
     let mut b = coset::CoseSignBuilder::new();
     let mut payload: Option<Vec<u8>> = None;
     let mut recs: Vec<Option<Rec>> = Vec::new();
+    // A hand-made signer whose header names an algorithm number that is neither registered nor
+    // private use can be signed and encoded but not parsed back: for such a history the round trip may
+    // fail (then there is nothing to verify), but it must not succeed with the signers renumbered.
+    let undecodable = std::cell::Cell::new(false);
     let mk_sig = |ctx: &mut Ctx| {
-        let s = coset::CoseSignatureBuilder::new().protected(header(ctx)).unprotected(header(ctx)).signature(small(ctx)).build();
+        let mut s = coset::CoseSignatureBuilder::new().protected(header(ctx)).unprotected(header(ctx)).signature(small(ctx)).build();
+        if ctx.rng.chance(1, 16) {
+            let odd = Some(coset::RegisteredLabelWithPrivate::PrivateUse(*ctx.rng.pick(&[12345i64, 8, -9, -65536, 70000])));
+            if ctx.rng.coin() {
+                s.protected.header.alg = odd;
+            } else {
+                s.unprotected.alg = odd;
+            }
+            undecodable.set(true);
+            ctx.count("signer-with-unparseable-algorithm");
+            return s;
+        }
         // a third of the signer templates are held as a decoder would have produced them
         if ctx.rng.chance(1, 3) {
             as_received(ctx, s)
@@ -481,7 +507,7 @@ fn sign_history(ctx: &mut Ctx) {
     let nb = 1 + ctx.rng.below(4);
     for _ in 0..nb {
         let aad = small(ctx);
-        let ret = uid(ctx, &mut k);
+        let ret = created(ctx, &mut k);
         let sig = mk_sig(ctx);
         let variant = ctx.rng.below(if payload.is_none() { 6 } else { 4 });
         let mut seen: Option<Vec<u8>> = None;
@@ -584,6 +610,10 @@ fn sign_history(ctx: &mut Ctx) {
     let back = if tagged { guard(|| msg.clone().to_tagged_vec().and_then(|b| coset::CoseSign::from_tagged_slice(&b))) } else { guard(|| msg.clone().to_vec().and_then(|b| coset::CoseSign::from_slice(&b))) };
     let m = match back {
         Ok(Ok(m)) => m,
+        Ok(Err(_)) if undecodable.get() => {
+            ctx.count("roundtrip-refused-unparseable-signer");
+            return;
+        }
         Ok(Err(e)) => return bad(ctx, "roundtrip-failed/Sign", format!("{:?}", capi::ek(&e)), &hist),
         Err(p) => return bad(ctx, "unexpected-panic/roundtrip", p.site(), &hist),
     };
@@ -701,10 +731,22 @@ fn mac_history(ctx: &mut Ctx, is0: bool) {
     }
     for _ in 0..1 + ctx.rng.below(3) {
         let aad = small(ctx);
-        let ret = uid(ctx, &mut k);
+        let ret = created(ctx, &mut k);
         let r2 = ret.clone();
         let mut seen: Option<Vec<u8>> = None;
-        match ctx.rng.below(4) {
+        match ctx.rng.below(5) {
+            4 => {
+                // recipients may be added before or after the tag is created: the MAC_structure does
+                // not depend on them
+                if let B::M(x) = b {
+                    b = B::M(x.add_recipient(coset::CoseRecipientBuilder::new().unprotected(header(ctx)).ciphertext(small(ctx)).build()));
+                    hist.push("add_recipient(r)".into());
+                } else {
+                    let h = header(ctx);
+                    b = on!(b, x => x.unprotected(h));
+                    hist.push("unprotected(h)".into());
+                }
+            }
             0 => {
                 hist.push(format!("create_tag(aad={})", hex(&aad)));
                 let r = guard(|| match b {
@@ -962,7 +1004,7 @@ fn enc_history(ctx: &mut Ctx, kind: usize) {
     for _ in 0..1 + ctx.rng.below(3) {
         let aad = small(ctx);
         let pt = small(ctx);
-        let ret = uid(ctx, &mut k);
+        let ret = created(ctx, &mut k);
         let r2 = ret.clone();
         let rc = ctx.rng.below(3);
         let mut seen: Option<(Vec<u8>, Vec<u8>)> = None;
